@@ -15,20 +15,44 @@ theorem bind_registry_eq (st st' : State) (k : Key) (v : Val) (loc : Option Loc)
   repeat (first | (split at h) | cases h)
   exact ⟨rfl, rfl⟩
 
-/-- what a parse leaves untouched: lock flag, registry, constants (so "known" is static) -/
+/-- all registrations performed by the import statements of a text, at any include depth -/
+def stmtsRegs : List Stmt → List State.RegReq
+  | [] => []
+  | .imp _ _ _ regs :: rest => regs ++ stmtsRegs rest
+  | .incl _ (some stmts) _ :: rest => stmtsRegs stmts ++ stmtsRegs rest
+  | _ :: rest => stmtsRegs rest
+
+/-- what a parse leaves untouched: lock flag and constants (the registry too, unless an imported
+    module registers something: `applyStmts_registry`) -/
 structure ParseFrame (s s' : State) : Prop where
   locked : s'.locked = s.locked
-  registry : s'.registry = s.registry
   constants : s'.constants = s.constants
 
-theorem ParseFrame.refl (s : State) : ParseFrame s s := ⟨rfl, rfl, rfl⟩
+theorem ParseFrame.refl (s : State) : ParseFrame s s := ⟨rfl, rfl⟩
 theorem ParseFrame.trans {a b c : State} (h1 : ParseFrame a b) (h2 : ParseFrame b c) : ParseFrame a c :=
-  ⟨h2.locked.trans h1.locked, h2.registry.trans h1.registry, h2.constants.trans h1.constants⟩
+  ⟨h2.locked.trans h1.locked, h2.constants.trans h1.constants⟩
 
 theorem parseFrame_of_bind (st st' : State) (k : Key) (v : Val) (loc : Option Loc)
     (h : st.bind k v loc = .ok st') : ParseFrame st st' :=
-  ⟨bind_locked_eq st st' k v loc h, (bind_registry_eq st st' k v loc h).1,
-   (bind_registry_eq st st' k v loc h).2⟩
+  ⟨bind_locked_eq st st' k v loc h, (bind_registry_eq st st' k v loc h).2⟩
+
+theorem register_frame (st st' : State) (r : State.RegReq) (h : st.register r = .ok st') :
+    st'.locked = st.locked ∧ st'.constants = st.constants := by
+  rw [(State.register_ok h).2]
+  exact ⟨rfl, rfl⟩
+
+theorem registerAll_frame (st : State) (regs : List State.RegReq) :
+    (registerAll st regs).1.locked = st.locked ∧ (registerAll st regs).1.constants = st.constants := by
+  induction regs generalizing st with
+  | nil => exact ⟨rfl, rfl⟩
+  | cons r rest ih =>
+    simp only [registerAll]
+    cases h : st.register r with
+    | error e => exact ⟨rfl, rfl⟩
+    | ok st' =>
+      have h1 := register_frame st st' r h
+      have h2 := ih st'
+      exact ⟨h2.1.trans h1.1, h2.2.trans h1.2⟩
 
 mutual
   theorem applyStmts_frame (st : State) (file : Option String) (skip : SkipSpec) (ss : List Stmt) :
@@ -66,10 +90,13 @@ mutual
       split
       · exact ParseFrame.refl st
       · split <;> exact ParseFrame.refl st
-    | imp m found line =>
+    | imp m found line regs =>
       simp only [applyStmt]
+      have hr := registerAll_frame st regs
       split
-      · exact ParseFrame.refl st
+      · split
+        · rename_i heq; rw [heq] at hr; exact ⟨hr.1, hr.2⟩
+        · rename_i heq; rw [heq] at hr; exact ⟨hr.1, hr.2⟩
       · split <;> exact ParseFrame.refl st
     | incl name fileStmts line =>
       cases fileStmts with
@@ -77,12 +104,84 @@ mutual
       | some stmts =>
         simp only [applyStmt]
         have h := applyStmts_frame st (some name) skip stmts
-        split <;> exact ⟨h.locked, h.registry, h.constants⟩
+        split <;> exact ⟨h.locked, h.constants⟩
 end
 
 theorem parseConfig_frame (st : State) (file : Option String) (skip : SkipSpec) (ss : List Stmt) :
     ParseFrame st (parseConfig st file skip ss).st := by
   have h := applyStmts_frame st file skip ss
-  exact ⟨h.locked, h.registry, h.constants⟩
+  exact ⟨h.locked, h.constants⟩
+
+/-! ### the registry changes only through registering imports -/
+
+theorem stmtsRegs_cons_nil (s : Stmt) (rest : List Stmt) (h : stmtsRegs (s :: rest) = []) :
+    stmtsRegs [s] = [] ∧ stmtsRegs rest = [] := by
+  cases s with
+  | imp m f l regs => simp only [stmtsRegs, List.append_eq_nil_iff] at h ⊢; exact ⟨⟨h.1, trivial⟩, h.2⟩
+  | incl name fs l =>
+    cases fs with
+    | none => simp only [stmtsRegs] at h ⊢; exact ⟨trivial, h⟩
+    | some body => simp only [stmtsRegs, List.append_eq_nil_iff] at h ⊢; exact ⟨⟨h.1, trivial⟩, h.2⟩
+  | binding _ _ _ _ _ => simp only [stmtsRegs] at h ⊢; exact ⟨trivial, h⟩
+  | block _ _ _ => simp only [stmtsRegs] at h ⊢; exact ⟨trivial, h⟩
+  | syntaxErr _ => simp only [stmtsRegs] at h ⊢; exact ⟨trivial, h⟩
+
+mutual
+  theorem applyStmts_registry (st : State) (file : Option String) (skip : SkipSpec) (ss : List Stmt)
+      (h : stmtsRegs ss = []) : (applyStmts st file skip ss).st.registry = st.registry := by
+    cases ss with
+    | nil => simp only [applyStmts]
+    | cons s rest =>
+      obtain ⟨hs, hrest⟩ := stmtsRegs_cons_nil s rest h
+      simp only [applyStmts]
+      have h1 := applyStmt_registry st file skip s hs
+      split
+      · rename_i st1 imps incs f heq
+        rw [heq] at h1; exact h1
+      · rename_i st1 imps incs heq
+        rw [heq] at h1
+        exact (applyStmts_registry st1 file skip rest hrest).trans h1
+  theorem applyStmt_registry (st : State) (file : Option String) (skip : SkipSpec) (s : Stmt)
+      (h : stmtsRegs [s] = []) : (applyStmt st file skip s).1.registry = st.registry := by
+    cases s with
+    | syntaxErr l => simp only [applyStmt]
+    | binding scope sel arg v line =>
+      simp only [applyStmt]
+      split
+      · rfl
+      · split
+        · split
+          · rename_i hb; exact (bind_registry_eq _ _ _ _ _ hb).1
+          · rfl
+        · split
+          · rfl
+          · split
+            · rename_i hb; exact (bind_registry_eq _ _ _ _ _ hb).1
+            · rfl
+    | block scope sel line =>
+      simp only [applyStmt]
+      split
+      · rfl
+      · split <;> rfl
+    | imp m found line regs =>
+      have hregs : regs = [] := by simpa [stmtsRegs] using h
+      subst hregs
+      simp only [applyStmt, registerAll]
+      split
+      · rfl
+      · split <;> rfl
+    | incl name fileStmts line =>
+      cases fileStmts with
+      | none => simp only [applyStmt]
+      | some stmts =>
+        have hb : stmtsRegs stmts = [] := by simpa [stmtsRegs] using h
+        simp only [applyStmt]
+        have hh := applyStmts_registry st (some name) skip stmts hb
+        split <;> exact hh
+end
+
+theorem parseConfig_registry (st : State) (file : Option String) (skip : SkipSpec) (ss : List Stmt)
+    (h : stmtsRegs ss = []) : (parseConfig st file skip ss).st.registry = st.registry :=
+  applyStmts_registry st file skip ss h
 
 end Gin
